@@ -352,6 +352,9 @@ class H2ConnModel:
         f["cwin"] = z3.IntVal(65535)
         f["mfs"] = z3.IntVal(16384)
         f["conn_closed"] = z3.BoolVal(False)
+        # h2 configures its header decoder from the settings it is constructed with (default 65536)
+        # and afterwards only when an acknowledged local setting *changes*
+        f["decoder"] = SObj("h2:Decoder", {"max_header_list_size": 65536}, tag="decoder")
         interp.register_shared(obj)
         return obj
 
